@@ -130,6 +130,14 @@ add('C09', 'fault_enumeration', 'runtime monitoring with crash injection: real F
     'Fidelity of the in-memory client for the calls used; non-empty message values; per-partition in-order completion '
     'enforced by the harness consumer (the property\'s proviso).', 'DESIGN.md#C09')
 
+add('C20', 'exploration', 'runtime monitoring: differential twin execution (local vs scatter...gather on an in-process dask cluster) with perturbed task durations',
+    'The same generated chain of operations runs as a local pipeline and with scatter()/gather() around it on an '
+    'in-process distributed cluster; mapped functions sleep a seeded 0-4 ms so that tasks finish out of order on the '
+    'worker threads; sink sequences must be equal in order and the instrumented reference counters of the inputs must end '
+    'with the same counts and completion signals.',
+    'Real scheduler and real time: interleavings are whatever the perturbation produces; watchdog => inconclusive.',
+    'DESIGN.md#C20')
+
 
 def main():
     props = [json.loads(l) for l in open(os.path.join(HERE, 'properties.jsonl'))]
